@@ -102,7 +102,9 @@ func TestZZVerifValidate(t *testing.T) {
 		}
 		cmd := exec.Command("go", "test", "-tags", "verif", "-vet=off", "-count=1", "-v", "-overlay", ovFile, "-run", "^TestZZVerifValidate$", "-timeout", "300s", "./"+rel)
 		cmd.Dir = filepath.Join(repoDir, c.Dir)
-		cmd.Env = append(goEnv(), "VERIF_VALIDATE="+strings.Join(env, ";"))
+		scratch := filepath.Join(tmp, "scratch")
+		os.MkdirAll(scratch, 0o755)
+		cmd.Env = append(goEnv(), "VERIF_VALIDATE="+strings.Join(env, ";"), "TMPDIR="+scratch)
 		out, _ := cmd.CombinedOutput()
 		s := string(out)
 		for _, it := range items {
